@@ -35,6 +35,8 @@ def _item_to_py(item):
                 out.append(list(c["l"]))
             elif "npi" in c:
                 out.append(np.int64(c["npi"]))
+            elif "na" in c:
+                out.append(np.array(c["na"]))  # an index list handed over as a numpy integer array
             elif "np0" in c:
                 out.append(np.array(c["np0"]))  # a 0-d integer array: an integer for numpy's indexing
             else:
@@ -59,7 +61,7 @@ class Prop:
             "event log (operations, outcomes, eval calls)")
     probes = ["op_scalar", "op_array", "op_view_create", "op_on_view", "op_on_packed_view", "expect_indexerror_order",
               "expect_indexerror_finite", "expect_runtimeerror_cycle", "masked_result", "precached_read",
-              "dep_nested_eval", "dep_slice_eval", "dep_view_eval", "nested_list_index", "none_valued_read", "kept_view_created", "op_on_kept_view", "npint_index", "cycle_len1", "cycle_len2", "cycle_len3", "view_of_view", "wrong_length", "bare_index", "index_list_mutated_after_view", "deepcopy_checked", "zero_dim_array_index", "subclassed_roots", "oob_scalar_view", "op_on_oob_view", "eval_formats_series", "pop_cached", "pop_absent", "contains_true", "contains_false"]
+              "dep_nested_eval", "dep_slice_eval", "dep_view_eval", "nested_list_index", "none_valued_read", "kept_view_created", "op_on_kept_view", "npint_index", "cycle_len1", "cycle_len2", "cycle_len3", "view_of_view", "wrong_length", "bare_index", "index_array_mutated_after_view", "index_list_mutated_after_view", "deepcopy_checked", "zero_dim_array_index", "subclassed_roots", "oob_scalar_view", "op_on_oob_view", "eval_formats_series", "pop_cached", "pop_absent", "contains_true", "contains_false"]
     components_real = ["pymablock.series.BlockSeries (__getitem__, views, pop, __contains__, _check_finite, _check_number_perturbations)"]
     components_stub = ["element eval callbacks (simulator-owned table with dependency edges)", "series names (token_hex counter)"]
     assumptions = ["orders < 5, at most 4 finite and 2 infinite dimensions (5 in total), sizes 1-3",
@@ -126,7 +128,10 @@ class Prop:
                 item = [({"npi": c} if isinstance(c, int) and r.random() < 0.6 else c) for c in item]
                 item = [({"np0": c["npi"]} if isinstance(c, dict) and "npi" in c and r.random() < 0.25 else c) for c in item]
             ops.append(["idx", list(tgt), item, len(ops)])
-            if make_view and any(isinstance(c, dict) and "l" in c for c in item) and r.random() < 0.4:
+            if make_view and r.random() < 0.3:
+                # index lists handed over as numpy integer arrays (flat, non-empty ones)
+                item[:] = [({"na": c["l"]} if isinstance(c, dict) and "l" in c and c["l"] and isinstance(c["l"][0], int) else c) for c in item]
+            if make_view and any(isinstance(c, dict) and ("l" in c or "na" in c) for c in item) and r.random() < 0.4:
                 ops[-1].append("mut")  # after creating the view the caller re-uses (mutates) the lists it indexed with
             if len(item) == 1 and r.random() < 0.5:
                 ops[-1].append("bare")  # the single index component is given as it is, not wrapped in a tuple: S[[0, 2]], S[1:], S[3]
@@ -558,6 +563,9 @@ class Prop:
                     all_series.append(V)
                     if mutate_after:
                         for comp_ in item:
+                            if isinstance(comp_, np.ndarray) and comp_.ndim:
+                                bump("index_array_mutated_after_view")
+                                comp_[...] = 0
                             if isinstance(comp_, list):
                                 bump("index_list_mutated_after_view")
                                 comp_.reverse()
